@@ -216,6 +216,9 @@ Definition merge12 (l : list tree) : option tree :=
   | _ => None
   end.
 
+Definition canon (s : nset) : nset := sort_asc s.
+Definition cleaves (t : tree) : nset := canon (leaves t).   (* the frozenset of a node, sorted *)
+
 (* contract_nodes: [sub] is the path find_path returns for the >= 3 operands
    (keyed by their leaf sets); it is executed on temp_nodes with 1/2-operand steps *)
 Definition contract_list (sub : list nset -> path) (l : list tree) : option tree :=
@@ -223,7 +226,7 @@ Definition contract_list (sub : list nset -> path) (l : list tree) : option tree
   | [] => None
   | [x] => Some x
   | [x; y] => Some (pair_nodes x y)
-  | _ => match lin_exec merge12 l (sub (map leaves l)) with
+  | _ => match lin_exec merge12 l (sub (map cleaves l)) with
          | Some [parent] => Some parent            (* (parent,) = temp_nodes *)
          | _ => None
          end
@@ -311,7 +314,6 @@ Definition tree_complete_b (n : nat) (ch : chmap) : bool :=
 
 (* the children map of a tree, parents after children (bottom-up creation order);
    node sets sorted ascending as the harness prints frozensets *)
-Definition canon (s : nset) : nset := sort_asc s.
 Fixpoint children_of (t : tree) : chmap :=
   match t with
   | Leaf _ => []
@@ -409,7 +411,7 @@ Variable groupsize : nat.
 
 (* one round of the while loop of build_agglom *)
 Definition agglom_groups (lv : list tree) : list (list tree) :=
-  separate lv (memb_fn (map leaves lv)).
+  separate lv (memb_fn (map cleaves lv)).
 Definition agglom_round (lv : list tree) : option (list tree) :=
   map_opt (contract_list sub) (agglom_groups lv).
 
